@@ -25,7 +25,7 @@ def evalProp (prop : String) (p : Program) (r : Result) (linksOk : Bool) : List 
   | "C15" => (P_C15 p r, pi_C15 r)
   | "C18" => (if r.panic.isSome then [] else P_C18_shape p r linksOk ++ (if acceptedWF p r then P_C18_values p r else []),
               pi_C18 r ++ " || " ++ " | ".intercalate (r.roots.map wBlock))
-  | "C19" => (P_C19 p r, pi_stacks (fun i => isExtInstr i || !i.reads.isEmpty) r)
+  | "C19" => (P_C19 p r ++ P_C19_visited p r, pi_stacks (fun i => isExtInstr i || !i.reads.isEmpty) r)
   | _ => (["unknown-property"], "")
   (tags, panicProj r proj)
 
